@@ -28,8 +28,8 @@ Open Scope string_scope.
 (* Python exception classes the path can raise; [EOther] is never produced by
    the model (the harness uses it for any other exception, so that it shows up
    as a disagreement); [EScope] marks an input outside the modelled fragment
-   (a positive literal of a multi-part surface, which becomes a UNION; a
-   nested FILL): the theorems about successful runs say nothing there and the
+   (an implicit surface 1000 * cell + surface whose descriptor is not
+   supplied): the theorems about successful runs say nothing there and the
    harness never observes it *)
 Inductive err := ENotImplemented | EUnbound | EKey | EValue | EScope | EOther.
 Inductive res (A : Type) := Ok (a : A) | Err (e : err).
@@ -228,20 +228,24 @@ Definition cell := (N * list (list Z))%type.
 (* pot_expand_surfs on a surface leaf: a single sub-surface keeps its place; a
    negative literal of a collection is the intersection of the opposite
    sub-surfaces (flattened into the enclosing intersection by pot_optimise); a
-   positive one is a union: outside the model *)
-Definition expand_lit (m : list (N * list Z)) (z : Z) : res (list Z) :=
+   positive one is the union of the sub-surfaces: a FICTIVE volume with the
+   UNION operator whose own equation holds the first sub-surface and whose
+   arguments are FICTIVE volumes holding one of the others each, joined to the
+   cell by INTE.  Result: the literals of the cell's own equation, and the
+   union groups *)
+Definition expand_lit (m : list (N * list Z)) (z : Z) : res (list Z * list (list Z)) :=
   match dict_get (Z.abs_N z) m with
   | None => Err EKey                              (* matching[abs(surface)] *)
-  | Some [s] => Ok [if Z.ltb 0 z then s else Z.opp s]
-  | Some ids => if Z.ltb 0 z then Err EScope else Ok (map Z.opp ids)
+  | Some [s] => Ok ([if Z.ltb 0 z then s else Z.opp s], [])
+  | Some ids => if Z.ltb 0 z then Ok ([], [ids]) else Ok (map Z.opp ids, [])
   end.
 
-Fixpoint expand_part (m : list (N * list Z)) (zs : list Z) : res (list Z) :=
+Fixpoint expand_part (m : list (N * list Z)) (zs : list Z) : res (list Z * list (list Z)) :=
   match zs with
-  | [] => Ok []
+  | [] => Ok ([], [])
   | z :: r =>
       match expand_lit m z, expand_part m r with
-      | Ok a, Ok b => Ok (a ++ b)%list
+      | Ok (a, g), Ok (b, h) => Ok ((a ++ b)%list, (g ++ h)%list)
       | Err e, _ => Err e
       | _, Err e => Err e
       end
@@ -257,44 +261,67 @@ Definition memN (k : N) (l : list N) : bool := existsb (N.eqb k) l.
 (* VolumeT4.empty(): pluses & minuses *)
 Definition empty_vol (p m : list N) : bool := existsb (fun k => memN k m) p.
 
-(* the surface ids of one VolumeT4 after renumbering; None when
-   remove_empty_volumes deletes it *)
+Fixpoint renumber_groups (dedup : bool) (nb : numbering) (gs : list (list Z))
+  : res (list (list N)) :=
+  match gs with
+  | [] => Ok []
+  | g :: r =>
+      match renumber dedup nb (map Z.abs_N g), renumber_groups dedup nb r with
+      | Ok a, Ok b => Ok (a :: b)
+      | Err e, _ => Err e
+      | _, Err e => Err e
+      end
+  end.
+
+(* one part of a converted cell: (alive, the surface ids of its volumes, the ids
+   that stay behind when it is deleted).  A part whose own equation has the same
+   id with both senses is not emitted at all (pot_optimise); one that gets so
+   only through de-duplication is deleted by remove_empty_volumes, its UNION
+   volumes (nobody mentions them any more) by remove_unused_volumes - but that
+   function makes a single pass, so the FICTIVE volumes that were the arguments
+   of those UNIONs stay in the file with their surfaces *)
 Definition part_ids (dedup : bool) (nb : numbering) (m : list (N * list Z)) (part : list Z)
-  : res (option (list N)) :=
+  : res (bool * list N * list N) :=
   match expand_part m part with
   | Err e => Err e
-  | Ok zs =>
-      match renumber dedup nb (pluses_of zs), renumber dedup nb (minuses_of zs) with
-      | Ok p, Ok mi => Ok (if empty_vol p mi then None else Some (p ++ mi)%list)
-      | Err e, _ => Err e
-      | _, Err e => Err e
+  | Ok (zs, gs) =>
+      if empty_vol (pluses_of zs) (minuses_of zs) then Ok (false, [], [])
+      else
+      match renumber dedup nb (pluses_of zs), renumber dedup nb (minuses_of zs),
+            renumber_groups dedup nb gs with
+      | Ok p, Ok mi, Ok gids =>
+          let left := List.concat (map (@tl N) gids) in
+          if empty_vol p mi then Ok (false, [], left)
+          else Ok (true, (p ++ mi ++ List.concat gids)%list, left)
+      | Err e, _, _ => Err e
+      | _, Err e, _ => Err e
+      | _, _, Err e => Err e
       end
   end.
 
-(* the volumes of one converted cell: when one of them is deleted the others
-   go with it (INTE of a removed volume; a FICTIVE volume nobody uses) *)
+(* the volumes of one converted cell: when one part is deleted the others go
+   with it (INTE of a removed volume; a FICTIVE volume nobody uses) *)
 Fixpoint parts_ids (dedup : bool) (nb : numbering) (m : list (N * list Z))
-    (parts : list (list Z)) : res (option (list N)) :=
+    (parts : list (list Z)) : res (bool * list N * list N) :=
   match parts with
-  | [] => Ok (Some [])
+  | [] => Ok (true, [], [])
   | p :: r =>
       match part_ids dedup nb m p, parts_ids dedup nb m r with
-      | Ok o, Ok o' =>
-          Ok (match o, o' with Some a, Some b => Some (a ++ b)%list | _, _ => None end)
+      | Ok (a, i, o), Ok (a', i', o') => Ok (a && a', (i ++ i')%list, (o ++ o')%list)
       | Err e, _ => Err e
       | _, Err e => Err e
       end
   end.
 
-(* the surface ids of the volumes that remain after renumbering and
-   remove_empty_volumes, cell by cell *)
+(* the surface ids of the volumes that remain after renumbering,
+   remove_empty_volumes and remove_unused_volumes, cell by cell *)
 Fixpoint used_ids (dedup : bool) (nb : numbering) (m : list (N * list Z))
     (cells : list cell) : res (list N) :=
   match cells with
   | [] => Ok []
   | c :: r =>
       match parts_ids dedup nb m (snd c), used_ids dedup nb m r with
-      | Ok o, Ok u => Ok (match o with Some ids => (ids ++ u)%list | None => u end)
+      | Ok (a, i, o), Ok u => Ok ((if a then i else o) ++ u)%list
       | Err e, _ => Err e
       | _, Err e => Err e
       end
@@ -468,8 +495,8 @@ Fixpoint apply_trcls (cs : list tcell) (t : table) (key : N)
    card stands for surface n mod 1000 as transformed by the TRCL of cell
    n / 1000; it gets an entry of its own (appended; the boundary flag goes
    with it) before anything else happens.  The loop runs over a Python set:
-   ascending order is assumed (the correspondence only runs decks where the
-   two orders agree). *)
+   the order of the walk is the parameter [ids] (the correspondence feeds the
+   order CPython used; no theorem depends on it). *)
 Fixpoint find_cell (i : N) (cs : list tcell) : option tcell :=
   match cs with
   | [] => None
@@ -507,24 +534,34 @@ Fixpoint implicit_pass (cs : list tcell) (ids : list N) (t : table) : res table 
 Definition implicit_ids (cs : list tcell) : list N :=
   sort_uniq (flat_map (fun c => map (fun l => Z.abs_N (l_z l)) (tc_lits c)) cs).
 
-(* the surface dictionary and the cells once every copy has been made *)
-Definition expand_table (cs : list tcell) (t : table) : res (list (bool * cell) * table) :=
-  match implicit_pass cs (implicit_ids cs) t with
+(* the surface dictionary and the cells once every copy has been made; [ids]
+   is the order in which the set of implicit surfaces is walked *)
+Definition expand_table_with (ids : list N) (cs : list tcell) (t : table)
+  : res (list (bool * cell) * table) :=
+  match implicit_pass cs ids t with
   | Err e => Err e
   | Ok [] => Err EValue                  (* max() of an empty dictionary *)
   | Ok t1 => apply_trcls cs t1 (N.succ (max_key t1))
   end.
 
+Definition expand_table (cs : list tcell) (t : table) : res (list (bool * cell) * table) :=
+  expand_table_with (implicit_ids cs) cs t.
+
 Definition converted (cells : list (bool * cell)) : list cell :=
   map snd (filter fst cells).
 
 (* free_surf_key = max key + 1 (max() of an empty dictionary is a ValueError) *)
-Definition run_t (cfg : config) (cards : list scard) (tcells : list tcell) : res output :=
+Definition run_t_with (ids : list N) (cfg : config) (cards : list scard) (tcells : list tcell)
+  : res output :=
   match parse_cards cards [] with
   | Err e => Err e
   | Ok t =>
-      match expand_table tcells t with
+      match expand_table_with ids tcells t with
       | Err e => Err e
       | Ok (cells, t') => finish cfg t' (converted cells)
       end
   end.
+
+(* ascending walk *)
+Definition run_t (cfg : config) (cards : list scard) (tcells : list tcell) : res output :=
+  run_t_with (implicit_ids tcells) cfg cards tcells.
